@@ -157,6 +157,8 @@ static void do_jc(char **f, int nf)
   if (!strcmp(cs, "gray")) { c.input_components = 1; c.in_color_space = JCS_GRAYSCALE; }
   else if (!strcmp(cs, "cmyk") || !strcmp(cs, "ycck")) { c.input_components = 4; c.in_color_space = JCS_CMYK; }
   else if (!strcmp(cs, "yccin")) { c.input_components = 3; c.in_color_space = JCS_YCbCr; }
+  else if (!strcmp(cs, "ycckin")) { c.input_components = 4; c.in_color_space = JCS_YCCK; }
+  else if (!strncmp(cs, "unk", 3)) { c.input_components = atoi(cs + 3); c.in_color_space = JCS_UNKNOWN; }
   else { c.input_components = 3; c.in_color_space = JCS_RGB; }
   nc = c.input_components;
   c.data_precision = prec;
@@ -181,6 +183,10 @@ static void do_jc(char **f, int nf)
       c.JFIF_major_version = (UINT8)a; c.JFIF_minor_version = (UINT8)b; c.density_unit = (UINT8)u;
       c.X_density = (UINT16)xd; c.Y_density = (UINT16)yd;
     }
+  }
+  if (nf >= 17 && strcmp(f[16], "-")) {            /* component ids i.i.i (kept only in lossy mode: lossless re-derives the colourspace) */
+    const char *p2 = f[16]; int k2;
+    for (k2 = 0; k2 < c.num_components && *p2; k2++) { c.comp_info[k2].component_id = (int)strtol(p2, (char **)&p2, 10); if (*p2 == '.') p2++; }
   }
   if (wj[0] != 'd') c.write_JFIF_header = wj[0] == '1';
   if (wa[0] != 'd') c.write_Adobe_marker = wa[0] == '1';
